@@ -6,6 +6,8 @@ import OjgVerif.JPMut.LemmasSet
 namespace OjgVerif.JPMut
 open OjgVerif OjgVerif.JPath
 
+variable {σ : SliceFn} [NodupSlice σ]
+
 /-! ## Del -/
 
 theorem delArr_getElem? (T : List Path) : ∀ (xs : List JV) (o j : Nat),
@@ -165,34 +167,34 @@ theorem insAll_keeps : ∀ (q : Path) (C : List (Path × JV)) (d : JV), (valAt q
       exact insAll_keeps q (stripC l C) c0 h
 
 /-- every selected location exists -/
-theorem locs_exist : ∀ (x : List Frag), NoDescent x → ∀ (d : JV), WF d → ∀ p ∈ locs x d, (valAt p d).isSome
+theorem locs_exist : ∀ (x : List Frag), NoDescent x → ∀ (d : JV), WF d → ∀ p ∈ locsG σ x d, (valAt p d).isSome
   | [], _, d, _, p, hp => by
     simp only [locs_nil, List.mem_singleton] at hp
     subst hp; rfl
   | f :: r, hnd, d, hw, p, hp => by
-    obtain ⟨m, hm, q, hq, rfl⟩ := (mem_locs_cons f r d p).1 hp
-    obtain ⟨l, hl, hc⟩ := Shape_of f d (hnd f (by simp)) (WF_top d hw) m hm
+    obtain ⟨m, hm, q, hq, rfl⟩ := (mem_locs_cons (σ := σ) f r d p).1 hp
+    obtain ⟨l, hl, hc⟩ := Shape_of (σ := σ) f d (hnd f (by simp)) (WF_top d hw) m hm
     rw [hl]
     simp only [List.singleton_append, valAt_cons, hc, Option.bind_some]
     exact locs_exist r (fun g hg => hnd g (List.mem_cons_of_mem _ hg)) m.2 (WF_child l d m.2 hw hc) q hq
 
 /-- hit of Set: afterwards every selected location that stands alone among the selected ones holds the new value -/
-theorem setSpec_hit (v : JV) (x : List Frag) (hnd : NoDescent x) (d : JV) (hw : WF d) (p : Path) (hp : p ∈ locs x d)
-    (ha : Alone (locs x d) p) : valAt p (setSpec x v d) = some v := by
-  simp only [setSpec]
-  rw [updAll_hit (fun _ => v) p (locs x d) _ hp ha]
-  have := insAll_keeps p (creates v x d) d (locs_exist x hnd d hw p hp)
-  cases h : valAt p (insAll (creates v x d) d) with
+theorem setSpec_hit (v : JV) (x : List Frag) (hnd : NoDescent x) (d : JV) (hw : WF d) (p : Path) (hp : p ∈ locsG σ x d)
+    (ha : Alone (locsG σ x d) p) : valAt p (setSpecG σ x v d) = some v := by
+  simp only [setSpecG]
+  rw [updAll_hit (fun _ => v) p (locsG σ x d) _ hp ha]
+  have := insAll_keeps p (createsG σ v x d) d (locs_exist (σ := σ) x hnd d hw p hp)
+  cases h : valAt p (insAll (createsG σ v x d) d) with
   | none => rw [h] at this; cases this
   | some c => rfl
 
 /-- frame of Set: a location that exists and is not at, above or below a selected location or a created member
 holds what it held -/
 theorem setSpec_frame (v : JV) (x : List Frag) (d c : JV) (q : Path) (hv : valAt q d = some c)
-    (h1 : touched (locs x d) q = false) (h2 : touched ((creates v x d).map (·.1)) q = false) :
-    valAt q (setSpec x v d) = some c := by
-  simp only [setSpec]
-  rw [updAll_frame (fun _ => v) q (locs x d) _ h1]
-  exact insAll_frame q (creates v x d) d c hv h2
+    (h1 : touched (locsG σ x d) q = false) (h2 : touched ((createsG σ v x d).map (·.1)) q = false) :
+    valAt q (setSpecG σ x v d) = some c := by
+  simp only [setSpecG]
+  rw [updAll_frame (fun _ => v) q (locsG σ x d) _ h1]
+  exact insAll_frame q (createsG σ v x d) d c hv h2
 
 end OjgVerif.JPMut
